@@ -663,6 +663,8 @@ def _translate_error(err):
         return (b"MemoryError",)
     elif isinstance(err, errors.AlreadyControlDirError):
         return (b"AlreadyControlDir", err.path)
+    elif isinstance(err, errors.AppendRevisionsOnlyViolation):
+        return (b"AppendRevisionsOnlyViolation",)
     # Unserialisable error.  Log it, and return a generic error
     trace.log_exception_quietly()
     return (
